@@ -639,6 +639,13 @@ EXPECTED_SITES = sorted([
 
 
 # ------------------------------------------------------------------ the check
+def exh_bits(ctx):
+    """an exponent, so not scaled by ctx.pick: 10 bits quick, 12 when the driver escalates a quick run (sources changed), 14 thorough"""
+    if ctx.tier != "quick":
+        return 14
+    return 12 if getattr(ctx, "escalated", False) else 10
+
+
 def run(ctx):
     bio, OutOfRangeError, eg, dio, UEOS_, State, bitarray = I()
     rng = ctx.rng
@@ -649,7 +656,7 @@ def run(ctx):
         "and compared with the model; random op sequences for writer / BitstreamReader / decoder reader continuing after "
         "exceptions (every fourth writer sequence: block, seek back/forward while bits remain or past the end, then writes beyond |delta|); "
         "structured read programs; integers up to 2^300; oracle incl. the seek-in-block law on writer and reader.  A case is non-trivial when at least one real bit is "
-        "read or written (distinct by input)." % ctx.pick(10, 14))
+        "read or written (distinct by input)." % exh_bits(ctx))
 
     def corr_fail(name, bad, describe):
         if bad:
@@ -666,7 +673,7 @@ def run(ctx):
                        "- re-checked by an AST scan on every run; negative bounded-block lengths are therefore unreachable in the validator")
 
     # ---- (1) exhaustive bit strings: model tie (checksums) + readers-agree oracle ----------
-    nbits = ctx.pick(10, 14)
+    nbits = exh_bits(ctx)
     files = exh_files(nbits)
     chunk = max(1, len(files) // 64)
     chunks = [(files[i:i + chunk], i, ctx.pick(4, 1)) for i in range(0, len(files), chunk)]
